@@ -3,7 +3,8 @@
     with given compositions, [remove] / [aspirate]) and for whole programs ([run]).
     Builds on Proofs/MixingProofs.v and Proofs/MixingRunProofs.v; the reference ([iwell],
     [is_transfer], [is_exec]) is that of Spec/Mixing.v, extended below by the ideal view of
-    liquids entering from outside ([is_add]), liquids leaving ([is_rem]) and whole calls ([is_op]). *)
+    liquids entering from outside ([is_add]; [iw_dilute] / [is_addo] for liquids of unknown
+    composition, audit item REVIEW2 N2), liquids leaving ([is_rem]) and whole calls ([is_op]). *)
 From Robo Require Import Prelude Str Wells Utils Labware Tips Records Partition Params Worklist
   EvoCmd Program Invariants Mixing WellsProofs MixingProofs MixingRunProofs.
 From Coq Require Import Lqa.
@@ -36,6 +37,47 @@ Fixpoint is_rem (sg : istate) (k : nat) (L : labware) (items : list (string * Q)
       | None => sg
       end
   end.
+
+(** A liquid of UNKNOWN composition enters ([add] / [dispense] / [evo_dispense] called without a
+    composition): the volume grows by [v] and every fraction is kept, i.e. the added liquid is
+    booked as "more of what is already there" - every amount grows by the factor [(V + v) / V].
+    (This is a modelling decision, not physics: the English property only speaks about liquids
+    of known composition.  The library does the same: [Labware.add] leaves the fractions of the
+    well alone when no composition is given.)
+    The empty well, [V == 0]: in an ideal well that is empty every amount is 0, and 0 times any
+    factor is 0 - the well then holds [v] of a liquid of which nothing is known (all amounts 0),
+    whatever [(0 + v) / 0] is taken to be; [iw_dilute_empty] below proves this without looking at
+    the quotient, so nothing depends on Coq's [x / 0 = 0].  (Same remark as for [iw_remove].)
+    The MODEL differs there: a well that was emptied keeps its last fractions in the component
+    table, and a later addition without composition makes them valid again ("30 ul of unknown
+    liquid into the emptied stock well = 30 ul of stock", as the library).  The refinement
+    theorems for composition-less additions therefore carry the hypothesis [well_clean] (below). *)
+Definition iw_dilute (w : iwell) (v : Q) : iwell :=
+  {| iw_vol := iw_vol w + v;
+     iw_amt := fun k => iw_amt w k * ((iw_vol w + v) / iw_vol w) |}.
+
+(** liquids entering from outside, with or without a composition, in call order:
+    [(well id, volume, Some composition)] is one ideal addition [iw_add] (as in [is_add]),
+    [(well id, volume, None)] is one [iw_dilute] *)
+Fixpoint is_addo (sg : istate) (k : nat) (L : labware) (items : list (string * Q * option composition))
+    : istate :=
+  match items with
+  | [] => sg
+  | (w, v, oc) :: r =>
+      match lw_index L w with
+      | Some i =>
+          is_addo (is_upd sg k i (match oc with
+                                  | Some c => iw_add (sg k i) v (fun x => cget x c)
+                                  | None => iw_dilute (sg k i) v
+                                  end)) k L r
+      | None => sg
+      end
+  end.
+
+(** the [compositions] argument of [add]: a list with one entry per addressed well ([None] entries
+    allowed), or [None] for "no composition for any of the [n] wells" *)
+Definition comps_list (comps : option (list (option composition))) (n : nat) : list (option composition) :=
+  match comps with Some cs => cs | None => repeat None n end.
 
 (** the (source, destination, volume) triples of a [transfer] call (numpy broadcasting of the
     three arguments to the longest one) *)
@@ -92,6 +134,12 @@ Lemma zip_map_r {A B C} (f : B -> C) (l1 : list A) : forall (l2 : list B),
 Proof.
   induction l1 as [|a r IH]; intros l2; [reflexivity|].
   destruct l2 as [|b r2]; [reflexivity|]. cbn [map zip fst snd]. rewrite IH. reflexivity.
+Qed.
+
+Lemma zip_length_eq {A B} (l1 : list A) : forall (l2 : list B), length l2 = length l1 -> length (zip l1 l2) = length l1.
+Proof.
+  induction l1 as [|x r IH]; intros [|y r2] H; try discriminate; [reflexivity|].
+  cbn [zip length]. rewrite (IH r2); [reflexivity|]. cbn [length] in H. lia.
 Qed.
 
 (** a list of API numbers all of whose elements pass [vol_ok] and are finite *)
@@ -169,6 +217,45 @@ Lemma is_add_geom k L L' items : lw_geom L' = lw_geom L -> forall W, is_add W k 
 Proof.
   intro E. induction items as [|[[w v] c] r IH]; intro W; [reflexivity|].
   cbn [is_add]. rewrite (lw_index_geom' L' L w E). destruct (lw_index L w); [apply IH|reflexivity].
+Qed.
+
+Lemma iw_dilute_congr w w' v : iw_eq w w' -> iw_eq (iw_dilute w v) (iw_dilute w' v).
+Proof.
+  intros [H1 H2]. split; cbn [iw_dilute iw_vol iw_amt]; [rewrite H1; reflexivity|].
+  intro k. rewrite H1, H2. reflexivity.
+Qed.
+
+(** what [iw_dilute] means: in a well that is not empty every fraction is kept ... *)
+Lemma iw_dilute_fractions w v k : ~ iw_vol w == 0 -> ~ iw_vol w + v == 0 ->
+  iw_frac (iw_dilute w v) k == iw_frac w k.
+Proof. intros H1 H2. unfold iw_frac. cbn [iw_dilute iw_vol iw_amt]. field. split; assumption. Qed.
+
+(** ... and in a well without any tracked amount (in particular an empty ideal well) nothing is
+    known about the liquid afterwards; the quotient [(V + v) / V] is not looked at *)
+Lemma iw_dilute_empty w v : (forall k, iw_amt w k == 0) -> forall k, iw_amt (iw_dilute w v) k == 0.
+Proof. intros H k. cbn [iw_dilute iw_amt]. rewrite (H k). ring. Qed.
+
+Lemma is_addo_congr k L items : forall W W', ist_eq W W' -> ist_eq (is_addo W k L items) (is_addo W' k L items).
+Proof.
+  induction items as [|[[w v] oc] r IH]; intros W W' HW; [exact HW|].
+  cbn [is_addo]. destruct (lw_index L w) as [i|]; [|exact HW].
+  apply IH. intros k' i'. apply is_upd_congr; [exact HW|].
+  destruct oc as [c|]; [apply iw_add_congr; [apply HW|intro x; reflexivity]|apply iw_dilute_congr; apply HW].
+Qed.
+
+Lemma is_addo_geom k L L' items : lw_geom L' = lw_geom L -> forall W, is_addo W k L' items = is_addo W k L items.
+Proof.
+  intro E. induction items as [|[[w v] oc] r IH]; intro W; [reflexivity|].
+  cbn [is_addo]. rewrite (lw_index_geom' L' L w E). destruct (lw_index L w); [apply IH|reflexivity].
+Qed.
+
+(** when every composition is given [is_addo] is [is_add] *)
+Lemma is_addo_some k L (ws : list string) : forall (vs : list Q) (cs : list composition) W,
+  is_addo W k L (zip (zip ws vs) (map Some cs)) = is_add W k L (zip (zip ws vs) cs).
+Proof.
+  induction ws as [|w wr IH]; intros vs cs W; [reflexivity|].
+  destruct vs as [|v vr]; [reflexivity|]. destruct cs as [|c cr]; [reflexivity|].
+  cbn [zip map is_addo is_add]. destruct (lw_index L w) as [i|]; [apply IH|reflexivity].
 Qed.
 
 Lemma is_rem_geom k L L' items : lw_geom L' = lw_geom L -> forall W, is_rem W k L' items = is_rem W k L items.
@@ -350,6 +437,162 @@ Proof.
     as (vs & Evs & Hvs & Hl1 & Hl2 & _ & _ & HR).
   exists vs. split; [exact Evs|]. split; [exact Hvs|]. split; [exact Hl1|]. split; [exact Hl2|].
   intros k' i. rewrite !abs_state_list. cbn [set_lw st_lw]. apply HR.
+Qed.
+
+(* ================================================================== (c') add / dispense WITHOUT a composition
+   (REVIEW2 N2): the call [add(wells, volumes)] with [compositions=None], or with [None] entries in
+   the list.  The model increases the volume and leaves the component table alone ([add_step L i v
+   None], C05_add_step_unchanged), the reference is [iw_dilute].  Both agree unless the well is an
+   EMPTIED well that still carries fractions (see the comment at [iw_dilute]). *)
+
+(** the tracked well [i] of [L] is not an emptied well with left-over fractions: it holds liquid,
+    or no fraction is recorded for it (a well that was never filled) *)
+Definition well_clean (L : labware) (i : nat) : Prop :=
+  ~ vol_at L i == 0 \/ forall x, frac L x i == 0.
+
+(** every well an [add] addresses WITHOUT a composition is clean (no condition on the wells that
+    come with a composition) *)
+Definition plain_clean (L : labware) (wells : arr string) (comps : option (list (option composition))) : Prop :=
+  Forall (fun wc => snd wc = None -> forall i, lw_index L (fst wc) = Some i -> well_clean L i)
+         (zip (flattenF wells) (comps_list comps (length (flattenF wells)))).
+
+(** no element of [add_loop] makes a clean well unclean (volumes only grow; a zero total volume
+    leaves the component table as it is) *)
+Lemma add_step_clean L i v oc j : mix_inv L -> (i < n_wells (lw_geom L))%nat -> 0 <= v ->
+  ocomp_ok oc -> well_clean L j -> well_clean (add_step L i v oc) j.
+Proof.
+  intros HI Hi Hv Hoc HC. pose proof HI as [(Hg & Hlen & _) (HL & ND & _)].
+  pose proof (vol_base_vol_at L i (proj1 HI)) as H0.
+  unfold well_clean. rewrite vol_at_add_step by lia.
+  destruct (Nat.eqb_spec i j) as [E|N].
+  - subst j. rewrite Qred_correct.
+    destruct (Qeq_dec (vol_at L i + v) 0) as [Ez|Nz]; [|left; exact Nz].
+    right. destruct HC as [HC|HC]; [exfalso; apply HC; lra|].
+    intro x. unfold frac. destruct oc as [c|].
+    + rewrite (add_step_guard L i v c ND Ez). apply HC.
+    + rewrite add_step_comp_none. apply HC.
+  - destruct HC as [HC|HC]; [left; exact HC|right].
+    intro x. rewrite add_step_frac_other; try assumption; [apply HC| |congruence].
+    destruct oc as [c|]; [apply Hoc|exact I].
+Qed.
+
+(** one accepted element of [add_loop] without composition is one [iw_dilute].  In an empty clean
+    well both sides have all amounts 0: the tracked well because no fraction is recorded, the
+    ideal one because 0 times the factor is 0 (the factor is not looked at). *)
+Lemma abs_upd_dilute l k L i v : nth_error l k = Some L -> mix_inv L ->
+  (i < n_wells (lw_geom L))%nat -> 0 <= v -> well_clean L i ->
+  ist_eq (abs_list (upd l k (add_step L i v None))) (is_upd (abs_list l) k i (iw_dilute (abs_list l k i) v)).
+Proof.
+  intros EL HI Hi Hv HC k' i'. pose proof HI as [(_ & Hlen & _) _].
+  unfold abs_list, is_upd. rewrite (nth_error_upd l k _ k' L EL).
+  destruct (Nat.eqb_spec k' k) as [Ek|Nk]; cbn [andb]; [|apply iw_eq_refl].
+  subst k'. rewrite EL.
+  change (abs_well (add_step L i v None) i')
+    with {| iw_vol := vol_at (add_step L i v None) i';
+            iw_amt := fun c => vol_at (add_step L i v None) i' * frac L c i' |}.
+  rewrite vol_at_add_step by lia. rewrite (Nat.eqb_sym i' i).
+  destruct (Nat.eqb_spec i i') as [Ei|Ni]; [|apply iw_eq_refl].
+  subst i'. split; cbn [iw_dilute abs_well iw_vol iw_amt]; [apply Qred_correct|].
+  intro c. rewrite Qred_correct.
+  destruct (Qeq_dec (vol_at L i) 0) as [E0|N0].
+  - assert (HA : vol_at L i * frac L c i == 0) by (rewrite E0; ring).
+    rewrite HA. destruct HC as [HC|HC]; [contradiction|]. rewrite (HC c). ring.
+  - field. exact N0.
+Qed.
+
+(** [add_loop] with or without compositions, whatever its outcome: the items before the first
+    refused one have been mixed in / booked as the ideal items say, the others have had no effect *)
+Lemma add_loop_any_u ws : forall vsx (cs : list (option composition)) l k L,
+  length vsx = length ws -> length cs = length ws ->
+  nth_error l k = Some L -> mix_inv L -> forallb vol_ok vsx = true -> Forall ocomp_ok cs ->
+  Forall (fun wc => snd wc = None -> forall i, lw_index L (fst wc) = Some i -> well_clean L i) (zip ws cs) ->
+  exists vs rest, vsx = (map XQ vs ++ rest)%list /\ Forall (fun v => 0 <= v) vs /\
+    (snd (add_loop L (zip (zip ws vsx) cs)) = None -> rest = []) /\
+    mix_inv (fst (add_loop L (zip (zip ws vsx) cs))) /\
+    ist_eq (abs_list (upd l k (fst (add_loop L (zip (zip ws vsx) cs)))))
+           (is_addo (abs_list l) k L (zip (zip ws vs) cs)).
+Proof.
+  induction ws as [|w wr IH]; intros vsx cs l k L Hlv Hlc EL HI Hok HC HCl.
+  - destruct vsx as [|x xr]; [|discriminate]. cbn [zip add_loop fst snd].
+    exists [], []. split; [reflexivity|]. split; [constructor|]. split; [reflexivity|]. split; [exact HI|].
+    rewrite (upd_same_nth_error l k L EL). apply ist_eq_refl.
+  - destruct vsx as [|x xr]; [discriminate|]. destruct cs as [|oc cr]; [discriminate|].
+    cbn [length] in Hlv, Hlc. injection Hlv as Hlv. injection Hlc as Hlc.
+    cbn [forallb] in Hok. apply andb_prop in Hok. destruct Hok as [Hx Hok].
+    inversion HC as [|oc' cr' Hoc HCr]; subst.
+    cbn [zip] in HCl. inversion HCl as [|wc' r' Hcl HClr]; subst. cbn [fst snd] in Hcl.
+    assert (Hstop : forall e : err, exists vs rest, x :: xr = (map XQ vs ++ rest)%list /\ Forall (fun v => 0 <= v) vs /\
+              (snd (L, Some e) = None -> rest = []) /\ mix_inv (fst (L, Some e)) /\
+              ist_eq (abs_list (upd l k (fst (L, Some e)))) (is_addo (abs_list l) k L (zip (zip (w :: wr) vs) (oc :: cr)))).
+    { intro e. exists [], (x :: xr). split; [reflexivity|]. split; [constructor|].
+      split; [discriminate|]. split; [exact HI|]. cbn [fst zip is_addo].
+      rewrite (upd_same_nth_error l k L EL). apply ist_eq_refl. }
+    cbn [zip]. rewrite add_loop_cons'.
+    destruct (lw_index L w) as [i|] eqn:Ei; [|apply Hstop].
+    destruct x as [v| | |]; try apply Hstop.
+    destruct (Qgtb (Qred (vol_at L i + v)) (lw_max L)); [apply Hstop|]. clear Hstop.
+    pose proof (vol_ok_XQ' v Hx) as Hv.
+    assert (Hi : (i < n_wells (lw_geom L))%nat) by (apply (lw_index_lt L w i); [apply HI|exact Ei]).
+    assert (HI2 : mix_inv (add_step L i v oc)) by (apply add_step_inv; assumption).
+    assert (HCl2 : Forall (fun wc => snd wc = None ->
+                     forall i0, lw_index (add_step L i v oc) (fst wc) = Some i0 -> well_clean (add_step L i v oc) i0)
+                   (zip wr cr)).
+    { eapply Forall_impl; [|exact HClr]. intros wc Hwc Hn i0 Ei0.
+      rewrite (lw_index_geom' _ L _ (add_step_geom L i v oc)) in Ei0.
+      apply add_step_clean; try assumption. exact (Hwc Hn i0 Ei0). }
+    destruct (IH xr cr (upd l k (add_step L i v oc)) k (add_step L i v oc) Hlv Hlc
+                (nth_error_upd_same l k _ L EL) HI2 Hok HCr HCl2) as (vs & rest & Evs & Hvs & Hnone & HI1 & HR).
+    exists (v :: vs), rest. split; [cbn [map app]; rewrite Evs; reflexivity|].
+    split; [constructor; assumption|]. split; [exact Hnone|]. split; [exact HI1|].
+    rewrite upd_upd in HR. cbn [zip is_addo]. rewrite Ei.
+    eapply ist_eq_trans; [exact HR|]. rewrite (is_addo_geom k L _ _ (add_step_geom L i v oc)).
+    apply is_addo_congr. destruct oc as [c|].
+    + intros k' i'. rewrite <- (abs_list_upd_log l k _ None).
+      apply abs_upd_add; try assumption. apply Hoc.
+    + apply abs_upd_dilute; try assumption. exact (Hcl eq_refl i eq_refl).
+Qed.
+
+Lemma comps_list_ok comps n : comps_ok comps -> Forall ocomp_ok (comps_list comps n).
+Proof.
+  destruct comps as [cs|]; cbn [comps_ok comps_list]; [auto|]. intros _.
+  induction n as [|n IH]; cbn [repeat]; constructor; [exact I|exact IH].
+Qed.
+
+(** [add] with or without compositions, whatever its outcome *)
+Lemma add_any_u l k L wells vols label comps : nth_error l k = Some L -> mix_inv L -> comps_ok comps ->
+  plain_clean L wells comps ->
+  exists vs rest, broadcast (flattenF vols) (length (flattenF wells)) = (map XQ vs ++ rest)%list /\
+    Forall (fun v => 0 <= v) vs /\
+    (snd (add L wells vols label comps) = None -> rest = []) /\
+    ist_eq (abs_list (upd l k (fst (add L wells vols label comps))))
+           (is_addo (abs_list l) k L
+              (zip (zip (flattenF wells) vs) (comps_list comps (length (flattenF wells))))).
+Proof.
+  intros EL HI HC HCl.
+  assert (Hstop : forall e : err, exists vs rest,
+            broadcast (flattenF vols) (length (flattenF wells)) = (map XQ vs ++ rest)%list /\
+            Forall (fun v => 0 <= v) vs /\ (snd (L, Some e) = None -> rest = []) /\
+            ist_eq (abs_list (upd l k (fst (L, Some e))))
+                   (is_addo (abs_list l) k L
+                      (zip (zip (flattenF wells) vs) (comps_list comps (length (flattenF wells)))))).
+  { intro e. exists [], (broadcast (flattenF vols) (length (flattenF wells))).
+    split; [reflexivity|]. split; [constructor|]. split; [discriminate|].
+    cbn [fst]. rewrite zip_nil_r. cbn [zip is_addo]. rewrite (upd_same_nth_error l k L EL). apply ist_eq_refl. }
+  unfold add. destruct (prep_wells_vols wells vols) as [wv|e] eqn:EP; [|apply Hstop].
+  destruct (prep_wells_vols_inv _ _ _ EP) as (Ewv & Hlv & Hok). cbv zeta in *. subst wv.
+  rewrite (zip_length_eq _ _ Hlv). fold (comps_list comps (length (flattenF wells))).
+  destruct (length (comps_list comps (length (flattenF wells))) =? length (flattenF wells))%nat
+    eqn:El; cbn [negb]; [|apply Hstop]. clear Hstop.
+  apply Nat.eqb_eq in El.
+  rewrite mk_item_id.
+  destruct (add_loop_any_u _ _ (comps_list comps (length (flattenF wells))) l k L Hlv El EL HI Hok
+              (comps_list_ok comps _ HC) HCl) as (vs & rest & Evs & Hvs & Hnone & HI1 & HR).
+  exists vs, rest. split; [exact Evs|]. split; [exact Hvs|].
+  destruct (add_loop L (zip (zip (flattenF wells) (broadcast (flattenF vols) (length (flattenF wells))))
+                            (comps_list comps (length (flattenF wells)))))
+    as [L1 [e|]]; cbn [fst snd] in *.
+  - split; [discriminate|exact HR].
+  - split; [exact Hnone|]. intros k' i'. rewrite abs_list_upd_log. apply HR.
 Qed.
 
 (* ================================================================== remove / aspirate *)
@@ -1093,26 +1336,18 @@ Qed.
 
 (* ================================================================== (d) whole calls and whole programs:
    the ideal semantics (specification level; [None] = the call has no ideal meaning: unknown
-   labware, a volume that is not a finite number, a missing composition, an unknown
-   partitioning mode, a negative distribution volume) *)
+   labware, a volume that is not a finite number, an unknown partitioning mode, a negative
+   distribution volume) *)
 
-Fixpoint all_some {A} (l : list (option A)) : option (list A) :=
-  match l with
-  | [] => Some []
-  | Some x :: r => match all_some r with Some xs => Some (x :: xs) | None => None end
-  | None :: _ => None
-  end.
-
-(** liquid of given composition enters the wells of labware [k] *)
+(** liquid enters the wells of labware [k]: of the given composition where one is given, of unknown
+    composition ([iw_dilute]: "more of what is there") where none is given *)
 Definition is_addcall (lws : list labware) (k : nat) (wells : arr string) (vols : arr xnum)
     (comps : option (list (option composition))) : option (istate -> istate) :=
-  match comps with
-  | Some cs0 =>
-      match all_some cs0, xq_list (broadcast (flattenF vols) (length (flattenF wells))), nth_error lws k with
-      | Some cs, Some vs, Some L => Some (fun W => is_add W k L (zip (zip (flattenF wells) vs) cs))
-      | _, _, _ => None
-      end
-  | None => None
+  match xq_list (broadcast (flattenF vols) (length (flattenF wells))), nth_error lws k with
+  | Some vs, Some L =>
+      Some (fun W => is_addo W k L
+                       (zip (zip (flattenF wells) vs) (comps_list comps (length (flattenF wells)))))
+  | _, _ => None
   end.
 
 (** liquid leaves the wells of labware [k] *)
@@ -1180,18 +1415,25 @@ Definition op_effectless (o : op) : Prop :=
 (** the outcome of a call the run-level theorem accepts: the call was accepted, or it moves no liquid anyway *)
 Definition call_ok (o : op) (e : option err) : Prop := e = None \/ op_effectless o.
 
+(** the wider class (REVIEW2 N2): compositions may be missing - [op_comps_ok] of
+    Proofs/MixingRunProofs.v, every composition that IS given is a dict of fractions - provided
+    the wells addressed without a composition are clean in the state the call starts from *)
+Definition op_clean (s : state) (o : op) : Prop :=
+  match o with
+  | OAdd k ws _ _ cs => forall L, nth_error (st_lw s) k = Some L -> plain_clean L ws cs
+  | ODispense k ws _ _ cs _ => forall L, nth_error (st_lw s) k = Some L -> plain_clean L ws cs
+  | OEvoDisp k a _ cs => forall L, nth_error (st_lw s) k = Some L -> plain_clean L (c_wells a) cs
+  | _ => True
+  end.
+
+(** ... along a program: every call is [op_clean] in the state the model has reached *)
+Fixpoint run_clean (s : state) (ops : list op) : Prop :=
+  match ops with
+  | [] => True
+  | o :: r => op_clean s o /\ run_clean (fst (step s o)) r
+  end.
+
 (* ------------------------------------------------------------------ lemmas about the definitions *)
-
-Lemma all_some_map {A} (l : list (option A)) : forall xs, all_some l = Some xs -> l = map Some xs.
-Proof.
-  induction l as [|[x|] r IH]; intros xs H; cbn [all_some] in H; try discriminate.
-  - inversion H. reflexivity.
-  - destruct (all_some r) as [xs'|]; [|discriminate]. inversion H; subst. cbn [map].
-    rewrite (IH xs' eq_refl). reflexivity.
-Qed.
-
-Lemma all_some_of_map {A} (xs : list A) : all_some (map Some xs) = Some xs.
-Proof. induction xs as [|x r IH]; [reflexivity|]. cbn [map all_some]. rewrite IH. reflexivity. Qed.
 
 Lemma xq_list_of_map vs : xq_list (map XQ vs) = Some vs.
 Proof. induction vs as [|v r IH]; [reflexivity|]. cbn [map xq_list]. rewrite IH. reflexivity. Qed.
@@ -1221,11 +1463,10 @@ Lemma is_op_congr auto m lws o f : is_op auto m lws o = Some f ->
 Proof.
   assert (HA : forall k ws vs cs f, is_addcall lws k ws vs cs = Some f ->
                  forall W W', ist_eq W W' -> ist_eq (f W) (f W')).
-  { intros k ws vs cs g H. unfold is_addcall in H. destruct cs as [cs0|]; [|discriminate].
-    destruct (all_some cs0) as [cs|]; [|discriminate].
+  { intros k ws vs cs g H. unfold is_addcall in H.
     destruct (xq_list (broadcast (flattenF vs) (length (flattenF ws)))) as [vq|]; [|discriminate].
     destruct (nth_error lws k) as [L|]; [|discriminate]. inversion H; subst g.
-    intros W W' HW. apply is_add_congr. exact HW. }
+    intros W W' HW. apply is_addo_congr. exact HW. }
   assert (HR : forall k ws vs f, is_remcall lws k ws vs = Some f ->
                  forall W W', ist_eq W W' -> ist_eq (f W) (f W')).
   { intros k ws vs g H. unfold is_remcall in H.
@@ -1292,23 +1533,25 @@ Qed.
 (* ------------------------------------------------------------------ one call of a program *)
 
 (** the two shapes all liquid-adding / liquid-removing calls reduce to *)
-Lemma addcall_refines s0 s k wells vols label cs s' L L' : st_inv s ->
-  map lw_geom (st_lw s) = map lw_geom (st_lw s0) -> Forall comp_ok cs ->
+Lemma addcall_refines_u s0 s k wells vols label comps s' L L' : st_inv s ->
+  map lw_geom (st_lw s) = map lw_geom (st_lw s0) -> comps_ok comps -> plain_clean L wells comps ->
   nth_error (st_lw s) k = Some L ->
-  add L (A1 (flattenF wells)) (A1 (broadcast (flattenF vols) (length (flattenF wells)))) label
-      (Some (map Some cs)) = (L', None) ->
+  add L (A1 (flattenF wells)) (A1 (broadcast (flattenF vols) (length (flattenF wells)))) label comps
+    = (L', None) ->
   st_lw s' = upd (st_lw s) k L' ->
-  exists f, is_addcall (st_lw s0) k wells vols (Some (map Some cs)) = Some f /\
+  exists f, is_addcall (st_lw s0) k wells vols comps = Some f /\
     ist_eq (abs_state s') (f (abs_state s)).
 Proof.
-  intros HI HG HC EL EA Es'.
-  destruct (add_refines (st_lw s) k L _ _ _ cs L' EL (st_inv_nth s k L HI EL) HC EA)
-    as (vs & Evs & Hvs & Hl1 & Hl2 & _ & _ & HR).
-  cbn [flattenF] in Evs, HR. rewrite broadcast_idem in Evs.
+  intros HI HG HC HCl EL EA Es'.
+  destruct (add_any_u (st_lw s) k L (A1 (flattenF wells))
+              (A1 (broadcast (flattenF vols) (length (flattenF wells)))) label comps EL
+              (st_inv_nth s k L HI EL) HC HCl) as (vs & rest & Evs & Hvs & Hnone & HR).
+  rewrite EA in Hnone, HR. cbn [fst snd flattenF] in Evs, Hnone, HR. rewrite broadcast_idem in Evs.
+  rewrite (Hnone eq_refl), app_nil_r in Evs.
   destruct (nth_geom _ _ k L HG EL) as (L0 & EL0 & Eg0).
-  unfold is_addcall. rewrite all_some_of_map, Evs, xq_list_of_map, EL0.
+  unfold is_addcall. rewrite Evs, xq_list_of_map, EL0.
   eexists. split; [reflexivity|]. cbv beta. intros k' i. rewrite !abs_state_list, Es'.
-  rewrite (is_add_geom k L L0 _ Eg0). apply HR.
+  rewrite (is_addo_geom k L L0 _ Eg0). apply HR.
 Qed.
 
 Lemma remcall_refines s0 s k wells vols label s' L L' : st_inv s ->
@@ -1352,12 +1595,14 @@ Qed.
 Lemma effectless_is_op auto m lws o : op_effectless o -> is_op auto m lws o = Some (fun W => W).
 Proof. destruct o; intro H; cbn [op_effectless op_record_only] in H; try destruct H; reflexivity. Qed.
 
-(** C05_step_refines: one call of a program, seen from a state [s] reached from [s0] *)
-Lemma step_refines s0 s o : st_inv s -> frame s0 s -> op_mix o -> call_ok o (snd (step s o)) ->
+(** C05_step_refines_unknown: one call of a program, seen from a state [s] reached from [s0];
+    compositions may be missing *)
+Lemma step_refines_unknown s0 s o : st_inv s -> frame s0 s -> op_comps_ok o -> op_clean s o ->
+  call_ok o (snd (step s o)) ->
   exists f, is_op (w_autosplit (st_wl s0)) (w_max (st_wl s0)) (st_lw s0) o = Some f /\
     ist_eq (abs_state (fst (step s o))) (f (abs_state s)).
 Proof.
-  intros HI [HG [Hm Ha]] HM HOK.
+  intros HI [HG [Hm Ha]] HM HCl HOK.
   assert (Heff : op_effectless o ->
             exists f, is_op (w_autosplit (st_wl s0)) (w_max (st_wl s0)) (st_lw s0) o = Some f /\
                       ist_eq (abs_state (fst (step s o))) (f (abs_state s))).
@@ -1369,11 +1614,11 @@ Proof.
     try (apply Heff; exact I); clear Heff;
     (destruct (step s _) as [s' e] eqn:ES; cbn [fst snd] in *; subst e).
   - (* add *)
-    unfold op_mix in HM. cbn [op_comps] in HM. destruct (comps_given_inv cs HM) as (cq & Ecs & HC). subst cs.
+    unfold op_comps_ok in HM. cbn [op_comps] in HM. cbn [op_clean] in HCl.
     cbn [step] in ES. unfold on_lw in ES. destruct (nth_error (st_lw s) k) as [L|] eqn:EL; [|discriminate].
-    destruct (add L ws vs l (Some (map Some cq))) as [L' [e|]] eqn:EA; [discriminate|]. inversion ES; subst s'.
+    destruct (add L ws vs l cs) as [L' [e|]] eqn:EA; [discriminate|]. inversion ES; subst s'.
     cbn [is_op]. rewrite <- A1_flatten_add in EA.
-    apply (addcall_refines s0 s k ws vs l cq _ L L' HI HG HC EL EA). reflexivity.
+    apply (addcall_refines_u s0 s k ws vs l cs _ L L' HI HG HM (HCl L eq_refl) EL EA). reflexivity.
   - (* remove *)
     cbn [step] in ES. unfold on_lw in ES. destruct (nth_error (st_lw s) k) as [L|] eqn:EL; [|discriminate].
     destruct (remove L ws vs l) as [L' [e|]] eqn:EA; [discriminate|]. inversion ES; subst s'.
@@ -1383,9 +1628,9 @@ Proof.
     cbn [step] in ES. destruct (aspirate_ok _ _ _ _ _ _ _ ES) as (L & L' & EL & EA & Es').
     cbn [is_op]. exact (remcall_refines s0 s k ws vs l s' L L' HI HG EL EA Es').
   - (* dispense *)
-    unfold op_mix in HM. cbn [op_comps] in HM. destruct (comps_given_inv cs HM) as (cq & Ecs & HC). subst cs.
+    unfold op_comps_ok in HM. cbn [op_comps] in HM. cbn [op_clean] in HCl.
     cbn [step] in ES. destruct (dispense_ok _ _ _ _ _ _ _ _ ES) as (L & L' & EL & EA & Es').
-    cbn [is_op]. exact (addcall_refines s0 s k ws vs l cq s' L L' HI HG HC EL EA Es').
+    cbn [is_op]. exact (addcall_refines_u s0 s k ws vs l cs s' L L' HI HG HM (HCl L EL) EL EA Es').
   - (* transfer *)
     cbn [step] in ES. pose proof ES as ES0. unfold transfer in ES0.
     destruct (w_dev (st_wl s)); try discriminate;
@@ -1418,10 +1663,27 @@ Proof.
     destruct (evo_aspirate_ok _ _ _ _ _ ES) as (L & L' & EL & EA & Es').
     cbn [is_op]. exact (remcall_refines s0 s k (c_wells a) (evo_vols (c_volume a)) l s' L L' HI HG EL EA Es').
   - (* evo_dispense *)
-    unfold op_mix in HM. cbn [op_comps] in HM. destruct (comps_given_inv cs HM) as (cq & Ecs & HC). subst cs.
+    unfold op_comps_ok in HM. cbn [op_comps] in HM. cbn [op_clean] in HCl.
     cbn [step] in ES. destruct (w_dev (st_wl s)); try discriminate.
     destruct (evo_dispense_ok _ _ _ _ _ _ ES) as (L & L' & EL & EA & Es').
-    cbn [is_op]. exact (addcall_refines s0 s k (c_wells a) (evo_vols (c_volume a)) l cq s' L L' HI HG HC EL EA Es').
+    cbn [is_op].
+    exact (addcall_refines_u s0 s k (c_wells a) (evo_vols (c_volume a)) l cs s' L L' HI HG HM (HCl L EL) EL EA Es').
+Qed.
+
+(** when every composition is given no well is addressed without one *)
+Lemma zip_some_Forall {A B} (P : A * option B -> Prop) (l1 : list A) : forall (l2 : list B),
+  (forall a b, P (a, Some b)) -> Forall P (zip l1 (map Some l2)).
+Proof.
+  induction l1 as [|a r IH]; intros l2 H; [constructor|].
+  destruct l2 as [|b r2]; [constructor|]. cbn [map zip]. constructor; [apply H|apply IH; exact H].
+Qed.
+
+Lemma op_mix_clean s o : op_mix o -> op_clean s o.
+Proof.
+  assert (HP : forall L ws cs, comps_given cs -> plain_clean L ws cs).
+  { intros L ws cs H. destruct (comps_given_inv cs H) as (cq & E & _). subst cs.
+    unfold plain_clean. cbn [comps_list]. apply zip_some_Forall. intros a b Hn. discriminate. }
+  unfold op_mix. destruct o; cbn [op_comps op_clean]; intro H; try exact I; intros L _; apply HP; exact H.
 Qed.
 
 (* ------------------------------------------------------------------ whole programs *)
@@ -1437,22 +1699,50 @@ Proof.
   unfold op_mix, op_comps_ok. destruct (op_comps o) as [cs|]; [apply comps_given_ok|intros _; exact I].
 Qed.
 
+(** C05_step_refines: the same for the narrower class [op_mix] (every composition given), where
+    nothing has to be said about clean wells *)
+Lemma step_refines s0 s o : st_inv s -> frame s0 s -> op_mix o -> call_ok o (snd (step s o)) ->
+  exists f, is_op (w_autosplit (st_wl s0)) (w_max (st_wl s0)) (st_lw s0) o = Some f /\
+    ist_eq (abs_state (fst (step s o))) (f (abs_state s)).
+Proof.
+  intros HI HF HM HOK.
+  exact (step_refines_unknown s0 s o HI HF (op_mix_comps_ok o HM) (op_mix_clean s o HM) HOK).
+Qed.
+
+Lemma ops_mix_comps_ok ops : Forall op_mix ops -> Forall op_comps_ok ops.
+Proof. intro H. eapply Forall_impl; [|exact H]. exact op_mix_comps_ok. Qed.
+
+Lemma ops_mix_clean ops : Forall op_mix ops -> forall s, run_clean s ops.
+Proof.
+  induction ops as [|o r IH]; intros H s; [exact I|]. inversion H as [|o' r' Ho Hr]; subst.
+  split; [apply op_mix_clean; exact Ho|apply IH; exact Hr].
+Qed.
+
+Lemma run_refines_from_unknown s0 ops : forall s, st_inv s -> frame s0 s -> Forall op_comps_ok ops ->
+  run_clean s ops -> Forall2 call_ok ops (snd (run s ops)) ->
+  exists F, is_run (w_autosplit (st_wl s0)) (w_max (st_wl s0)) (st_lw s0) ops = Some F /\
+    ist_eq (abs_state (fst (run s ops))) (F (abs_state s)).
+Proof.
+  induction ops as [|o r IH]; intros s HI HF HM HCl HOK.
+  - exists (fun W => W). split; [reflexivity|]. apply ist_eq_refl.
+  - inversion HM as [|o' r' Ho Hr]; subst. rewrite run_snd_cons in HOK.
+    inversion HOK as [|o'' e r'' es Hoe Hres]; subst. destruct HCl as [HClo HClr].
+    destruct (step_refines_unknown s0 s o HI HF Ho HClo Hoe) as (f & Ef & Hf).
+    assert (HI1 : st_inv (fst (step s o))) by (apply step_inv; [exact HI|exact Ho]).
+    assert (HF1 : frame s0 (fst (step s o))) by (eapply frame_trans; [exact HF|apply frame_step]).
+    destruct (IH (fst (step s o)) HI1 HF1 Hr HClr Hres) as (G & EG & HG).
+    exists (fun W => G (f W)). split; [cbn [is_run]; rewrite Ef, EG; reflexivity|].
+    rewrite run_fst_cons. eapply ist_eq_trans; [exact HG|].
+    apply (is_run_congr _ _ _ _ G EG). exact Hf.
+Qed.
+
 Lemma run_refines_from s0 ops : forall s, st_inv s -> frame s0 s -> Forall op_mix ops ->
   Forall2 call_ok ops (snd (run s ops)) ->
   exists F, is_run (w_autosplit (st_wl s0)) (w_max (st_wl s0)) (st_lw s0) ops = Some F /\
     ist_eq (abs_state (fst (run s ops))) (F (abs_state s)).
 Proof.
-  induction ops as [|o r IH]; intros s HI HF HM HOK.
-  - exists (fun W => W). split; [reflexivity|]. apply ist_eq_refl.
-  - inversion HM as [|o' r' Ho Hr]; subst. rewrite run_snd_cons in HOK.
-    inversion HOK as [|o'' e r'' es Hoe Hres]; subst.
-    destruct (step_refines s0 s o HI HF Ho Hoe) as (f & Ef & Hf).
-    assert (HI1 : st_inv (fst (step s o))) by (apply step_inv; [exact HI|apply op_mix_comps_ok; exact Ho]).
-    assert (HF1 : frame s0 (fst (step s o))) by (eapply frame_trans; [exact HF|apply frame_step]).
-    destruct (IH (fst (step s o)) HI1 HF1 Hr Hres) as (G & EG & HG).
-    exists (fun W => G (f W)). split; [cbn [is_run]; rewrite Ef, EG; reflexivity|].
-    rewrite run_fst_cons. eapply ist_eq_trans; [exact HG|].
-    apply (is_run_congr _ _ _ _ G EG). exact Hf.
+  intros s HI HF HM HOK.
+  exact (run_refines_from_unknown s0 ops s HI HF (ops_mix_comps_ok ops HM) (ops_mix_clean ops HM s) HOK).
 Qed.
 
 (** C05_run_refines: the final abstract state of a program is the fold of the ideal semantics
@@ -1533,6 +1823,82 @@ Proof.
   destruct H1 as [HI1 HF1]. exact (run_refines_from s ops2 s1 HI1 HF1 HM2 HOK).
 Qed.
 
+(* ------------------------------------------------------------------ whole programs, compositions may be
+   missing (REVIEW2 N2): the same statements for the class [op_comps_ok] under [run_clean] *)
+
+(** C05_run_refines_unknown *)
+Lemma run_refines_unknown ops s : st_inv s -> Forall op_comps_ok ops -> run_clean s ops ->
+  Forall2 call_ok ops (snd (run s ops)) ->
+  exists F, is_run (w_autosplit (st_wl s)) (w_max (st_wl s)) (st_lw s) ops = Some F /\
+    forall k i, iw_eq (abs_state (fst (run s ops)) k i) (F (abs_state s) k i).
+Proof. intros HI HM HCl HOK. exact (run_refines_from_unknown s ops s HI (frame_refl s) HM HCl HOK). Qed.
+
+Lemma run_refines_accepted_unknown ops s : st_inv s -> Forall op_comps_ok ops -> run_clean s ops ->
+  Forall (fun e => e = None) (snd (run s ops)) ->
+  exists F, is_run (w_autosplit (st_wl s)) (w_max (st_wl s)) (st_lw s) ops = Some F /\
+    forall k i, iw_eq (abs_state (fst (run s ops)) k i) (F (abs_state s) k i).
+Proof.
+  intros HI HM HCl HN. apply run_refines_unknown; try assumption.
+  apply all_none_call_ok; [apply run_snd_length|exact HN].
+Qed.
+
+Lemma run_clean_firstn ops : forall s n, run_clean s ops -> run_clean s (firstn n ops).
+Proof.
+  induction ops as [|o r IH]; intros s n H; [destruct n; exact I|].
+  destruct n as [|n]; [exact I|]. destruct H as [Ho Hr]. cbn [firstn]. split; [exact Ho|apply IH; exact Hr].
+Qed.
+
+Lemma run_clean_app ops1 : forall s ops2,
+  run_clean s (ops1 ++ ops2) <-> run_clean s ops1 /\ run_clean (fst (run s ops1)) ops2.
+Proof.
+  induction ops1 as [|o r IH]; intros s ops2.
+  - cbn [app run fst run_clean]. tauto.
+  - rewrite run_fst_cons. cbn [app run_clean]. rewrite IH. tauto.
+Qed.
+
+Lemma run_refines_prefix_unknown ops s n : st_inv s -> Forall op_comps_ok ops -> run_clean s (firstn n ops) ->
+  Forall2 call_ok (firstn n ops) (firstn n (snd (run s ops))) ->
+  exists F, is_run (w_autosplit (st_wl s)) (w_max (st_wl s)) (st_lw s) (firstn n ops) = Some F /\
+    forall k i, iw_eq (abs_state (fst (run s (firstn n ops))) k i) (F (abs_state s) k i).
+Proof.
+  intros HI HM HCl HOK. apply run_refines_unknown; [exact HI|apply Forall_firstn'; exact HM|exact HCl|].
+  rewrite run_snd_firstn. exact HOK.
+Qed.
+
+Lemma run_refines_constructed_unknown lws w ops : Forall constructed lws -> Forall op_comps_ok ops ->
+  run_clean {| st_lw := lws; st_wl := w |} ops ->
+  Forall2 call_ok ops (snd (run {| st_lw := lws; st_wl := w |} ops)) ->
+  exists F, is_run (w_autosplit w) (w_max w) lws ops = Some F /\
+    forall k i, iw_eq (abs_state (fst (run {| st_lw := lws; st_wl := w |} ops)) k i)
+                      (F (abs_list lws) k i).
+Proof.
+  intros HC HM HCl HOK. destruct (constructed_inv lws w HC) as [HI _].
+  exact (run_refines_unknown ops {| st_lw := lws; st_wl := w |} HI HM HCl HOK).
+Qed.
+
+Lemma run_inv_frame ops : forall s, st_inv s -> Forall op_comps_ok ops ->
+  st_inv (fst (run s ops)) /\ frame s (fst (run s ops)).
+Proof.
+  induction ops as [|o r IH]; intros s HI HM.
+  - split; [exact HI|apply frame_refl].
+  - inversion HM as [|o' r' Ho Hr]; subst. rewrite run_fst_cons.
+    assert (HI1 : st_inv (fst (step s o))) by (apply step_inv; [exact HI|exact Ho]).
+    destruct (IH (fst (step s o)) HI1 Hr) as [A B]. split; [exact A|].
+    eapply frame_trans; [apply frame_step|exact B].
+Qed.
+
+(** restart after a rejected call; nothing but the invariant is needed of the calls of [ops1] *)
+Lemma run_refines_restart_unknown ops1 ops2 s : st_inv s -> Forall op_comps_ok ops1 -> Forall op_comps_ok ops2 ->
+  let s1 := fst (run s ops1) in
+  run_clean s1 ops2 -> Forall2 call_ok ops2 (snd (run s1 ops2)) ->
+  exists F, is_run (w_autosplit (st_wl s)) (w_max (st_wl s)) (st_lw s) ops2 = Some F /\
+    forall k i, iw_eq (abs_state (fst (run s (ops1 ++ ops2))) k i) (F (abs_state s1) k i).
+Proof.
+  intros HI HM1 HM2 s1 HCl HOK. rewrite run_fst_app. fold s1.
+  destruct (run_inv_frame ops1 s HI HM1) as [HI1 HF1]. fold s1 in HI1, HF1.
+  exact (run_refines_from_unknown s ops2 s1 HI1 HF1 HM2 HCl HOK).
+Qed.
+
 (* ------------------------------------------------------------------ deciding the hypotheses *)
 
 Definition comps_givenb (comps : option (list (option composition))) : bool :=
@@ -1594,12 +1960,6 @@ Proof.
     eapply ist_eq_trans; [exact HR|]. rewrite (is_add_geom k L _ _ (add_step_geom L i v (Some c))).
     apply is_add_congr. intros k' i'. rewrite <- (abs_list_upd_log l k _ None).
     apply abs_upd_add; try assumption. apply Hc.
-Qed.
-
-Lemma zip_length_eq {A B} (l1 : list A) : forall (l2 : list B), length l2 = length l1 -> length (zip l1 l2) = length l1.
-Proof.
-  induction l1 as [|x r IH]; intros [|y r2] H; try discriminate; [reflexivity|].
-  cbn [zip length]. rewrite (IH r2); [reflexivity|]. cbn [length] in H. lia.
 Qed.
 
 (** [add] with given compositions, whatever its outcome *)
@@ -2049,10 +2409,10 @@ Qed.
 Definition partial_add (lws : list labware) (k : nat) (wells : arr string) (vols : arr xnum)
     (comps : option (list (option composition))) (W W' : istate) : Prop :=
   ist_eq W' W \/
-  exists L cq vq rest, nth_error lws k = Some L /\ comps = Some (map Some cq) /\
+  exists L vq rest, nth_error lws k = Some L /\
     broadcast (flattenF vols) (length (flattenF wells)) = (map XQ vq ++ rest)%list /\
     Forall (fun v => 0 <= v) vq /\
-    ist_eq W' (is_add W k L (zip (zip (flattenF wells) vq) cq)).
+    ist_eq W' (is_addo W k L (zip (zip (flattenF wells) vq) (comps_list comps (length (flattenF wells))))).
 
 Definition partial_rem (lws : list labware) (k : nat) (wells : arr string) (vols : arr xnum)
     (W W' : istate) : Prop :=
@@ -2104,24 +2464,25 @@ Inductive ideal_run (auto : bool) (m : Q) (lws : list labware)
 | IR_rej o r e es W W1 W' : is_partial auto m lws o W W1 ->
     ideal_run auto m lws r es W1 W' -> ideal_run auto m lws (o :: r) (Some e :: es) W W'.
 
-Lemma addlike_any s0 s k wells vols label cq l' : st_inv s ->
-  map lw_geom (st_lw s) = map lw_geom (st_lw s0) -> Forall comp_ok cq ->
+Lemma addlike_any_u s0 s k wells vols label comps l' : st_inv s ->
+  map lw_geom (st_lw s) = map lw_geom (st_lw s0) -> comps_ok comps ->
+  (forall L, nth_error (st_lw s) k = Some L -> plain_clean L wells comps) ->
   l' = match nth_error (st_lw s) k with
        | None => st_lw s
        | Some L => upd (st_lw s) k
                      (fst (add L (A1 (flattenF wells)) (A1 (broadcast (flattenF vols) (length (flattenF wells))))
-                               label (Some (map Some cq))))
+                               label comps))
        end ->
-  partial_add (st_lw s0) k wells vols (Some (map Some cq)) (abs_state s) (abs_list l').
+  partial_add (st_lw s0) k wells vols comps (abs_state s) (abs_list l').
 Proof.
-  intros HI HG HC El'. destruct (nth_error (st_lw s) k) as [L|] eqn:EL;
+  intros HI HG HC HCl El'. destruct (nth_error (st_lw s) k) as [L|] eqn:EL;
     [|left; subst l'; apply ist_eq_refl].
-  destruct (add_any (st_lw s) k L (A1 (flattenF wells)) (A1 (broadcast (flattenF vols) (length (flattenF wells))))
-              label cq EL (st_inv_nth s k L HI EL) HC) as (vq & rest & Evq & Hvq & _ & HR).
+  destruct (add_any_u (st_lw s) k L (A1 (flattenF wells)) (A1 (broadcast (flattenF vols) (length (flattenF wells))))
+              label comps EL (st_inv_nth s k L HI EL) HC (HCl L eq_refl)) as (vq & rest & Evq & Hvq & _ & HR).
   cbn [flattenF] in Evq, HR. rewrite broadcast_idem in Evq.
   destruct (nth_geom _ _ k L HG EL) as (L0 & EL0 & Eg0).
-  right. exists L0, cq, vq, rest. split; [exact EL0|]. split; [reflexivity|]. split; [exact Evq|].
-  split; [exact Hvq|]. subst l'. rewrite (is_add_geom k L L0 _ Eg0). exact HR.
+  right. exists L0, vq, rest. split; [exact EL0|]. split; [exact Evq|].
+  split; [exact Hvq|]. subst l'. rewrite (is_addo_geom k L L0 _ Eg0). exact HR.
 Qed.
 
 Lemma remlike_any s0 s k wells vols label l' : st_inv s ->
@@ -2144,19 +2505,21 @@ Proof.
   split; [exact Hvq|]. subst l'. rewrite (is_rem_geom k L L0 _ Eg0). exact HR.
 Qed.
 
-(** C05_step_rejected: what a rejected call of a program leaves behind *)
-Lemma step_partial s0 s o : st_inv s -> frame s0 s -> op_mix o -> snd (step s o) <> None ->
+(** C05_step_rejected_unknown: what a rejected call of a program leaves behind; compositions may
+    be missing *)
+Lemma step_partial_unknown s0 s o : st_inv s -> frame s0 s -> op_comps_ok o -> op_clean s o ->
+  snd (step s o) <> None ->
   is_partial (w_autosplit (st_wl s0)) (w_max (st_wl s0)) (st_lw s0) o
              (abs_state s) (abs_state (fst (step s o))).
 Proof.
-  intros HI [HG [Hm Ha]] HM HN.
+  intros HI [HG [Hm Ha]] HM HCl HN.
   assert (Heff : op_effectless o -> ist_eq (abs_state (fst (step s o))) (abs_state s)).
   { intros HE k i. rewrite (effectless_abs s o HE). apply iw_eq_refl. }
   destruct o as [k ws vs l cs|k ws vs l|k n l|k ws vs l kw|k ws vs l cs kw|ks sw kd dw vs l sch pb kw
                 |ks kd dw a|c|sch| | | |i|a|a|a|k a l|k a l cs|a];
     try (cbn [is_partial]; apply Heff; exact I); clear Heff; cbn [is_partial].
-  - unfold op_mix in HM. cbn [op_comps] in HM. destruct (comps_given_inv cs HM) as (cq & Ecs & HC). subst cs.
-    rewrite (abs_state_list (fst _)). apply (addlike_any s0 s k ws vs l cq); try assumption.
+  - unfold op_comps_ok in HM. cbn [op_comps] in HM. cbn [op_clean] in HCl.
+    rewrite (abs_state_list (fst _)). apply (addlike_any_u s0 s k ws vs l cs); try assumption.
     cbn [step]. rewrite on_lw_st_lw. destruct (nth_error (st_lw s) k) as [L|]; [|reflexivity].
     rewrite A1_flatten_add. reflexivity.
   - rewrite (abs_state_list (fst _)). apply (remlike_any s0 s k ws vs l); try assumption.
@@ -2164,8 +2527,8 @@ Proof.
     rewrite A1_flatten_remove. reflexivity.
   - rewrite (abs_state_list (fst _)). apply (remlike_any s0 s k ws vs l); try assumption.
     cbn [step]. apply aspirate_st_lw.
-  - unfold op_mix in HM. cbn [op_comps] in HM. destruct (comps_given_inv cs HM) as (cq & Ecs & HC). subst cs.
-    rewrite (abs_state_list (fst _)). apply (addlike_any s0 s k ws vs l cq); try assumption.
+  - unfold op_comps_ok in HM. cbn [op_comps] in HM. cbn [op_clean] in HCl.
+    rewrite (abs_state_list (fst _)). apply (addlike_any_u s0 s k ws vs l cs); try assumption.
     cbn [step]. apply dispense_st_lw.
   - (* transfer *)
     cbn [step] in *.
@@ -2194,34 +2557,52 @@ Proof.
     rewrite (abs_state_list (fst _)). apply (remlike_any s0 s k (c_wells a) (evo_vols (c_volume a)) l); try assumption.
     apply evo_aspirate_st_lw.
   - (* evo_dispense *)
-    unfold op_mix in HM. cbn [op_comps] in HM. destruct (comps_given_inv cs HM) as (cq & Ecs & HC). subst cs.
+    unfold op_comps_ok in HM. cbn [op_comps] in HM. cbn [op_clean] in HCl.
     cbn [step] in *. destruct (w_dev (st_wl s)); try (left; apply ist_eq_refl).
     rewrite (abs_state_list (fst _)).
-    apply (addlike_any s0 s k (c_wells a) (evo_vols (c_volume a)) l cq); try assumption.
+    apply (addlike_any_u s0 s k (c_wells a) (evo_vols (c_volume a)) l cs); try assumption.
     apply evo_dispense_st_lw.
 Qed.
 
-(** C05_run_refines_any: any program of the class, whatever the outcomes of its calls *)
-Lemma run_any_from s0 ops : forall s, st_inv s -> frame s0 s -> Forall op_mix ops ->
+(** C05_step_rejected: the same for the narrower class [op_mix] *)
+Lemma step_partial s0 s o : st_inv s -> frame s0 s -> op_mix o -> snd (step s o) <> None ->
+  is_partial (w_autosplit (st_wl s0)) (w_max (st_wl s0)) (st_lw s0) o
+             (abs_state s) (abs_state (fst (step s o))).
+Proof.
+  intros HI HF HM HN.
+  exact (step_partial_unknown s0 s o HI HF (op_mix_comps_ok o HM) (op_mix_clean s o HM) HN).
+Qed.
+
+(** C05_run_refines_any_unknown: any program, whatever the outcomes of its calls *)
+Lemma run_any_from_unknown s0 ops : forall s, st_inv s -> frame s0 s -> Forall op_comps_ok ops ->
+  run_clean s ops ->
   ideal_run (w_autosplit (st_wl s0)) (w_max (st_wl s0)) (st_lw s0) ops (snd (run s ops))
             (abs_state s) (abs_state (fst (run s ops))).
 Proof.
-  induction ops as [|o r IH]; intros s HI HF HM.
+  induction ops as [|o r IH]; intros s HI HF HM HCl.
   - cbn [run fst snd]. apply IR_nil. apply ist_eq_refl.
-  - inversion HM as [|o' r' Ho Hr]; subst. rewrite run_snd_cons, run_fst_cons.
-    assert (HI1 : st_inv (fst (step s o))) by (apply step_inv; [exact HI|apply op_mix_comps_ok; exact Ho]).
+  - inversion HM as [|o' r' Ho Hr]; subst. rewrite run_snd_cons, run_fst_cons. destruct HCl as [HClo HClr].
+    assert (HI1 : st_inv (fst (step s o))) by (apply step_inv; [exact HI|exact Ho]).
     assert (HF1 : frame s0 (fst (step s o))) by (eapply frame_trans; [exact HF|apply frame_step]).
-    specialize (IH (fst (step s o)) HI1 HF1 Hr).
+    specialize (IH (fst (step s o)) HI1 HF1 Hr HClr).
     destruct (snd (step s o)) as [e|] eqn:Eo.
-    + eapply IR_rej; [|exact IH]. apply step_partial; try assumption. rewrite Eo. discriminate.
-    + destruct (step_refines s0 s o HI HF Ho) as (f & Ef & Hf); [left; exact Eo|].
+    + eapply IR_rej; [|exact IH]. apply step_partial_unknown; try assumption. rewrite Eo. discriminate.
+    + destruct (step_refines_unknown s0 s o HI HF Ho HClo) as (f & Ef & Hf); [left; exact Eo|].
       eapply IR_ok; [exact Ef|exact Hf|exact IH].
 Qed.
 
+Lemma run_refines_any_unknown ops s : st_inv s -> Forall op_comps_ok ops -> run_clean s ops ->
+  ideal_run (w_autosplit (st_wl s)) (w_max (st_wl s)) (st_lw s) ops (snd (run s ops))
+            (abs_state s) (abs_state (fst (run s ops))).
+Proof. intros HI HM HCl. exact (run_any_from_unknown s ops s HI (frame_refl s) HM HCl). Qed.
+
+(** C05_run_refines_any: the same for the narrower class [op_mix] *)
 Lemma run_refines_any ops s : st_inv s -> Forall op_mix ops ->
   ideal_run (w_autosplit (st_wl s)) (w_max (st_wl s)) (st_lw s) ops (snd (run s ops))
             (abs_state s) (abs_state (fst (run s ops))).
-Proof. intros HI HM. exact (run_any_from s ops s HI (frame_refl s) HM). Qed.
+Proof.
+  intros HI HM. exact (run_refines_any_unknown ops s HI (ops_mix_comps_ok ops HM) (ops_mix_clean ops HM s)).
+Qed.
 
 (** when every call was accepted the relation is the fold [is_run] *)
 Lemma ideal_run_accepted auto m lws ops : forall es W W', ideal_run auto m lws ops es W W' ->
@@ -2292,6 +2673,121 @@ Proof.
   exact (run_refines_any ops {| st_lw := lws; st_wl := w |} HI (ops_mix_check ops HM)).
 Qed.
 
+(* ------------------------------------------------------------------ deciding [run_clean] *)
+
+Definition well_cleanb (L : labware) (i : nat) : bool :=
+  negb (Qeq_bool (vol_at L i) 0) || forallb (fun ka => Qeq_bool (nth i (snd ka) 0) 0) (lw_comp L).
+
+Definition plain_cleanb (L : labware) (wells : arr string) (comps : option (list (option composition))) : bool :=
+  forallb (fun wc => match snd wc, lw_index L (fst wc) with
+                     | None, Some i => well_cleanb L i
+                     | _, _ => true
+                     end)
+          (zip (flattenF wells) (comps_list comps (length (flattenF wells)))).
+
+Definition op_cleanb (s : state) (o : op) : bool :=
+  match o with
+  | OAdd k ws _ _ cs => match nth_error (st_lw s) k with Some L => plain_cleanb L ws cs | None => true end
+  | ODispense k ws _ _ cs _ => match nth_error (st_lw s) k with Some L => plain_cleanb L ws cs | None => true end
+  | OEvoDisp k a _ cs => match nth_error (st_lw s) k with Some L => plain_cleanb L (c_wells a) cs | None => true end
+  | _ => true
+  end.
+
+Fixpoint run_cleanb (s : state) (ops : list op) : bool :=
+  match ops with
+  | [] => true
+  | o :: r => op_cleanb s o && run_cleanb (fst (step s o)) r
+  end.
+
+Lemma assoc_get_entry {A} k (l : list (string * A)) a : assoc_get k l = Some a -> exists k', In (k', a) l.
+Proof.
+  induction l as [|[k1 a1] r IH]; cbn [assoc_get]; intro H; [discriminate|].
+  destruct (String.eqb k1 k).
+  - inversion H; subst. exists k1. left. reflexivity.
+  - destruct (IH H) as (k' & Hin). exists k'. right. exact Hin.
+Qed.
+
+Lemma well_cleanb_ok L i : well_cleanb L i = true -> well_clean L i.
+Proof.
+  unfold well_cleanb, well_clean. intro H. apply orb_prop in H. destruct H as [H|H].
+  - left. intro E. apply Qeq_bool_iff in E. rewrite E in H. discriminate.
+  - right. intro x. unfold frac, frac_at. destruct (assoc_get x (lw_comp L)) as [a|] eqn:E; [|reflexivity].
+    destruct (assoc_get_entry _ _ _ E) as (k' & Hin). rewrite forallb_forall in H.
+    specialize (H (k', a) Hin). cbn [snd] in H. apply Qeq_bool_iff. exact H.
+Qed.
+
+Lemma plain_cleanb_ok L wells comps : plain_cleanb L wells comps = true -> plain_clean L wells comps.
+Proof.
+  unfold plain_cleanb, plain_clean. intro H. apply Forall_forall. intros wc Hin Hn i Ei.
+  rewrite forallb_forall in H. specialize (H wc Hin). rewrite Hn, Ei in H. apply well_cleanb_ok. exact H.
+Qed.
+
+Lemma op_cleanb_ok s o : op_cleanb s o = true -> op_clean s o.
+Proof.
+  destruct o; cbn [op_cleanb op_clean]; intro H; try exact I;
+    intros L EL; rewrite EL in H; apply plain_cleanb_ok; exact H.
+Qed.
+
+(** C05_clean_check *)
+Lemma run_cleanb_ok ops : forall s, run_cleanb s ops = true -> run_clean s ops.
+Proof.
+  induction ops as [|o r IH]; intros s H; [exact I|]. cbn [run_cleanb] in H.
+  apply andb_prop in H. destruct H as [Ho Hr]. split; [apply op_cleanb_ok; exact Ho|apply IH; exact Hr].
+Qed.
+
+(** C05_run_refines_built_unknown: the run-level statement with hypotheses that evaluate *)
+Lemma run_refines_built_unknown cs lws w ops : build_all cs = Some lws -> forallb op_comps_okb ops = true ->
+  run_cleanb {| st_lw := lws; st_wl := w |} ops = true ->
+  forallb is_none (snd (run {| st_lw := lws; st_wl := w |} ops)) = true ->
+  exists F, is_run (w_autosplit w) (w_max w) lws ops = Some F /\
+    forall k i, iw_eq (abs_state (fst (run {| st_lw := lws; st_wl := w |} ops)) k i) (F (abs_list lws) k i).
+Proof.
+  intros HB HM HCl HN. apply run_refines_constructed_unknown.
+  - exact (build_all_constructed cs lws HB).
+  - apply (proj1 (ops_check ops)). exact HM.
+  - apply run_cleanb_ok. exact HCl.
+  - apply all_none_call_ok; [apply run_snd_length|apply forallb_is_none; exact HN].
+Qed.
+
+Lemma run_any_built_unknown cs lws w ops : build_all cs = Some lws -> forallb op_comps_okb ops = true ->
+  run_cleanb {| st_lw := lws; st_wl := w |} ops = true ->
+  ideal_run (w_autosplit w) (w_max w) lws ops (snd (run {| st_lw := lws; st_wl := w |} ops))
+            (abs_list lws) (abs_state (fst (run {| st_lw := lws; st_wl := w |} ops))).
+Proof.
+  intros HB HM HCl. destruct (constructed_inv lws w (build_all_constructed cs lws HB)) as [HI _].
+  exact (run_refines_any_unknown ops {| st_lw := lws; st_wl := w |} HI (proj1 (ops_check ops) HM)
+           (run_cleanb_ok ops _ HCl)).
+Qed.
+
+(* ------------------------------------------------------------------ [run_clean] cannot be dropped *)
+
+(** the plate of Proofs/MixingRunProofs.v ([cx_args]: 200 of "stock" in A01, 50 in B01, min 0):
+    A01 is emptied, then 30 of a liquid of unknown composition are dispensed into it *)
+Definition cx_plain : list op :=
+  [ OAspirate 0 (A0 "A01"%string) (A0 (XQ 200)) None kw_default;
+    ODispense 0 (A0 "A01"%string) (A0 (XQ 30)) None None kw_default ].
+
+(** C05_run_refines_unknown_refuted: without [run_clean] the run-level statement is false.  Both
+    calls are accepted and have an ideal meaning; the model (like the library) reports the 30 in
+    the emptied well as 30 of "stock", the reference knows nothing about them. *)
+Lemma run_refines_unknown_needs_clean :
+  exists s ops F, st_inv s /\ Forall op_comps_ok ops /\ snd (run s ops) = [None; None] /\
+    is_run (w_autosplit (st_wl s)) (w_max (st_wl s)) (st_lw s) ops = Some F /\
+    run_cleanb s ops = false /\
+    iw_vol (abs_state (fst (run s ops)) 0%nat 0%nat) == 30 /\ iw_vol (F (abs_state s) 0%nat 0%nat) == 30 /\
+    iw_amt (abs_state (fst (run s ops)) 0%nat 0%nat) "stock"%string == 30 /\
+    iw_amt (F (abs_state s) 0%nat 0%nat) "stock"%string == 0.
+Proof.
+  destruct (mk_labware cx_args) as [L|e] eqn:E; [|vm_compute in E; discriminate].
+  pose proof (mk_labware_mix_inv cx_args L E) as HL.
+  exists {| st_lw := [L]; st_wl := cx_w0 |}, cx_plain. eexists.
+  split; [constructor; [exact HL|constructor]|].
+  split; [repeat constructor|].
+  vm_compute in E. inversion E; subst L.
+  split; [vm_compute; reflexivity|]. split; [reflexivity|].
+  vm_compute. repeat split.
+Qed.
+
 (* ================================================================== the definitions, spelled out
    (restated in Props/C05.v so that the statements there can be read on their own) *)
 
@@ -2313,15 +2809,38 @@ Lemma is_rem_spec sg k L :
     end.
 Proof. split; reflexivity. Qed.
 
+Lemma is_addo_spec sg k L :
+  is_addo sg k L [] = sg /\
+  forall w v oc r, is_addo sg k L ((w, v, oc) :: r) =
+    match lw_index L w with
+    | Some i => is_addo (is_upd sg k i (match oc with
+                                        | Some c => iw_add (sg k i) v (fun x => cget x c)
+                                        | None => iw_dilute (sg k i) v
+                                        end)) k L r
+    | None => sg
+    end.
+Proof. split; reflexivity. Qed.
+
+(** [iw_dilute]: the definition, what it means in a well that is not empty (fractions kept), and
+    in a well without tracked amounts (nothing known; the quotient plays no role) *)
+Lemma iw_dilute_spec w v :
+  iw_dilute w v = {| iw_vol := iw_vol w + v;
+                     iw_amt := fun k => iw_amt w k * ((iw_vol w + v) / iw_vol w) |} /\
+  (~ iw_vol w == 0 -> ~ iw_vol w + v == 0 -> forall k, iw_frac (iw_dilute w v) k == iw_frac w k) /\
+  ((forall k, iw_amt w k == 0) -> forall k, iw_amt (iw_dilute w v) k == 0).
+Proof.
+  split; [reflexivity|]. split.
+  - intros H1 H2 k. apply iw_dilute_fractions; assumption.
+  - apply iw_dilute_empty.
+Qed.
+
 Lemma call_shapes_spec lws k wells vols comps :
   is_addcall lws k wells vols comps =
-    match comps with
-    | Some cs0 =>
-        match all_some cs0, xq_list (broadcast (flattenF vols) (length (flattenF wells))), nth_error lws k with
-        | Some cs, Some vs, Some L => Some (fun W => is_add W k L (zip (zip (flattenF wells) vs) cs))
-        | _, _, _ => None
-        end
-    | None => None
+    match xq_list (broadcast (flattenF vols) (length (flattenF wells))), nth_error lws k with
+    | Some vs, Some L =>
+        Some (fun W => is_addo W k L
+                         (zip (zip (flattenF wells) vs) (comps_list comps (length (flattenF wells)))))
+    | _, _ => None
     end /\
   is_remcall lws k wells vols =
     match xq_list (broadcast (flattenF vols) (length (flattenF wells))), nth_error lws k with
@@ -2330,12 +2849,54 @@ Lemma call_shapes_spec lws k wells vols comps :
     end.
 Proof. split; reflexivity. Qed.
 
-Lemma all_some_spec {A} (l : list (option A)) (xs : list A) :
-  (all_some l = Some xs <-> l = map Some xs) /\
-  (forall vs : list xnum, forall qs, xq_list vs = Some qs <-> vs = map XQ qs).
+(** [xq_list]: all volumes are finite numbers; [comps_list]: the compositions argument as a list;
+    with every composition given [is_addo] is [is_add] *)
+Lemma call_lists_spec :
+  (forall (vs : list xnum) (qs : list Q), xq_list vs = Some qs <-> vs = map XQ qs) /\
+  (forall comps n, comps_list comps n = match comps with Some cs => cs | None => repeat None n end) /\
+  (forall k L (ws : list string) (vs : list Q) (cs : list composition) W,
+     is_addo W k L (zip (zip ws vs) (map Some cs)) = is_add W k L (zip (zip ws vs) cs)).
 Proof.
-  split; [split; [apply all_some_map|intro E; subst l; apply all_some_of_map]|].
+  split; [|split; [reflexivity|exact is_addo_some]].
   intros vs qs. split; [apply xq_list_map|intro E; subst vs; apply xq_list_of_map].
+Qed.
+
+(** the step lists of the ideal transfer / distribution *)
+Lemma steps_spec swells dwells (vols : arr Q) col (dw : arr string) v :
+  transfer_triples swells dwells vols =
+    (let sw := flattenF swells in let dw := flattenF dwells in let vs := flattenF vols in
+     let nmax := Nat.max (length sw) (Nat.max (length dw) (length vs)) in
+     zip (zip (broadcast sw nmax) (broadcast dw nmax)) (broadcast vs nmax)) /\
+  dist_steps col dw v = map (fun w => Step (well_id 0 (Z.to_nat col)) w v) (flattenF dw).
+Proof. split; reflexivity. Qed.
+
+Lemma is_none_spec (e : option err) : is_none e = match e with None => true | Some _ => false end.
+Proof. reflexivity. Qed.
+
+(** the hypotheses about wells addressed without a composition *)
+Lemma clean_spec :
+  (forall L i, well_clean L i = (~ vol_at L i == 0 \/ forall x, frac L x i == 0)) /\
+  (forall L wells comps, plain_clean L wells comps =
+     Forall (fun wc => snd wc = None -> forall i, lw_index L (fst wc) = Some i -> well_clean L i)
+            (zip (flattenF wells) (comps_list comps (length (flattenF wells))))) /\
+  (forall s o, op_clean s o =
+     match o with
+     | OAdd k ws _ _ cs => forall L, nth_error (st_lw s) k = Some L -> plain_clean L ws cs
+     | ODispense k ws _ _ cs _ => forall L, nth_error (st_lw s) k = Some L -> plain_clean L ws cs
+     | OEvoDisp k a _ cs => forall L, nth_error (st_lw s) k = Some L -> plain_clean L (c_wells a) cs
+     | _ => True
+     end) /\
+  (forall s, run_clean s [] = True) /\
+  (forall s o r, run_clean s (o :: r) = (op_clean s o /\ run_clean (fst (step s o)) r)).
+Proof. split; [reflexivity|]. split; [reflexivity|]. split; [intros s o; destruct o; reflexivity|]. split; reflexivity. Qed.
+
+(** every composition given: nothing to check *)
+Lemma mix_clean_spec : (forall s o, op_mix o -> op_comps_ok o /\ op_clean s o) /\
+  (forall ops, Forall op_mix ops -> Forall op_comps_ok ops /\ forall s, run_clean s ops).
+Proof.
+  split.
+  - intros s o H. split; [apply op_mix_comps_ok; exact H|apply op_mix_clean; exact H].
+  - intros ops H. split; [apply ops_mix_comps_ok; exact H|apply ops_mix_clean; exact H].
 Qed.
 
 Lemma is_op_spec auto m lws o :
@@ -2405,10 +2966,11 @@ Proof. reflexivity. Qed.
 Lemma partial_spec lws k wells vols comps W W' :
   partial_add lws k wells vols comps W W' =
     ((forall k' i, iw_eq (W' k' i) (W k' i)) \/
-     exists L cq vq rest, nth_error lws k = Some L /\ comps = Some (map Some cq) /\
+     exists L vq rest, nth_error lws k = Some L /\
        broadcast (flattenF vols) (length (flattenF wells)) = (map XQ vq ++ rest)%list /\
        Forall (fun v => 0 <= v) vq /\
-       forall k' i, iw_eq (W' k' i) (is_add W k L (zip (zip (flattenF wells) vq) cq) k' i)) /\
+       forall k' i, iw_eq (W' k' i)
+         (is_addo W k L (zip (zip (flattenF wells) vq) (comps_list comps (length (flattenF wells)))) k' i)) /\
   partial_rem lws k wells vols W W' =
     ((forall k' i, iw_eq (W' k' i) (W k' i)) \/
      exists L vq rest, nth_error lws k = Some L /\
